@@ -1764,6 +1764,72 @@ def m_opt_and_then(I, state, frame, bi, t, args, span):
     return res
 
 
+@model("std::option::Option::<T>::or_else")
+def m_opt_or_else(I, state, frame, bi, t, args, span):
+    o = args[0]
+    vs = adt_variants(o) if (o[0] == "adt" and o[1] == OPTION) else {0: (), 1: (TOP,)}
+    res = []
+    if 1 in vs:
+        res.append((some(vs[1][0]), state.copy()))
+    if 0 in vs:
+        res.extend(call_closure(I, state.copy(), frame, bi, args[1], [], span))
+    return res
+
+
+@model("std::option::Option::<T>::or", "std::option::Option::<T>::xor")
+def m_opt_or(I, state, frame, bi, t, args, span):
+    o = args[0]
+    vs = adt_variants(o) if (o[0] == "adt" and o[1] == OPTION) else {0: (), 1: (TOP,)}
+    res = []
+    if 1 in vs:
+        res.append((some(vs[1][0]), state.copy()))
+    if 0 in vs:
+        res.append((args[1], state.copy()))
+    return res
+
+
+@model("std::option::Option::<T>::and")
+def m_opt_and(I, state, frame, bi, t, args, span):
+    o = args[0]
+    vs = adt_variants(o) if (o[0] == "adt" and o[1] == OPTION) else {0: (), 1: (TOP,)}
+    res = []
+    if 0 in vs:
+        res.append((adt(OPTION, {0: ()}), state.copy()))
+    if 1 in vs:
+        res.append((args[1], state.copy()))
+    return res
+
+
+@model("std::option::Option::<T>::copied", "std::option::Option::<T>::cloned", "std::option::Option::<T>::as_deref",
+       "std::option::Option::<T>::as_deref_mut")
+def m_opt_copied(I, state, frame, bi, t, args, span):
+    o = deref(I, state, args[0]) if args[0][0] == "ref" else args[0]
+    if o[0] == "adt" and o[1] == OPTION:
+        vs = adt_variants(o)
+        out = {}
+        if 0 in vs:
+            out[0] = ()
+        if 1 in vs:
+            p_ = vs[1][0]
+            out[1] = (deref(I, state, p_) if p_[0] == "ref" else p_,)
+        return [(adt(OPTION, out), state)]
+    return [(opt(TOP), state)]
+
+
+@model("std::option::Option::<T>::flatten")
+def m_opt_flatten(I, state, frame, bi, t, args, span):
+    o = args[0]
+    if o[0] == "adt" and o[1] == OPTION:
+        vs = adt_variants(o)
+        res = []
+        if 0 in vs:
+            res.append((adt(OPTION, {0: ()}), state.copy()))
+        if 1 in vs:
+            res.append((vs[1][0] if (vs[1][0][0] == "adt" and vs[1][0][1] == OPTION) else opt(TOP), state.copy()))
+        return res
+    return [(opt(TOP), state)]
+
+
 @model("std::option::Option::<T>::ok_or")
 def m_opt_ok_or(I, state, frame, bi, t, args, span):
     o = args[0]
